@@ -205,7 +205,7 @@ void c06a_run(const c06a_case *c, c06a_out *out);
 #define C06_MAX_CH 3
 #define C06_MAX_CMDS 24
 enum { /* commands */
-	E_ADD = 1, E_ENABLE, E_DISABLE, E_DEL, E_PEER_WRITE, E_DRAIN, E_PEER_CLOSE, E_SLEEP
+	E_ADD = 1, E_ENABLE, E_DISABLE, E_DEL, E_PEER_WRITE, E_DRAIN, E_PEER_CLOSE, E_SLEEP, E_PEER_SHUT_WR /* half close: shutdown(SHUT_WR) */
 };
 typedef struct {
 	uint8_t cmd, ch;
